@@ -11,6 +11,7 @@ Correspondence (model evaluated inside Coq, Model/Crypto.v run_C17, five kinds o
             total length, decrypt result as predicted by theorem C17_roundtrip_general
   3 slices  decrypt's three negative-index slices (and the tag length the cipher is built for) on arbitrary,
             also too short, messages
+  5 seq     two consecutive encrypt calls of one instance (toy cipher): the i-th call uses the i-th draw
   4 utf8    the model's strict UTF-8 decoder against bytes.decode (stand-in codec of the toy runs)
 Oracle (implementation only, real AES): round trip over key sizes x nonce 8..32 x tag 4..16 x lengths 0..64 and
 longer, ASCII / multi-byte; every single-bit flip of ciphertext|nonce|tag must raise; min length + marker for
@@ -56,7 +57,7 @@ META = dict(
                  "AES-GCM rejects every modified (nonce, ciphertext, tag) (unforgeability; not a theorem)"])
 
 SEP = -2
-K_TOY, K_TOYDEC, K_LAYOUT, K_SLICES, K_UTF8 = 0, 1, 2, 3, 4
+K_TOY, K_TOYDEC, K_LAYOUT, K_SLICES, K_UTF8, K_SEQ = 0, 1, 2, 3, 4, 5
 MULTI = [0xE9, 0x20AC, 0x1F600, 0x80, 0x7FF, 0x800, 0xFFFF, 0x10000, 0x10FFFF, 0xD7FF, 0xE000, 0x4E2D, 0x3B1]
 
 
@@ -79,14 +80,19 @@ def cps_of(s):
 
 # ------------------------------------------------------------------ patching points
 @contextlib.contextmanager
-def scripted_rng(draw):
-    """Replace get_random_bytes as imported in aes.py; every call returns `draw` (fitted to the size asked)."""
+def scripted_rng(draws):
+    """Replace get_random_bytes as imported in aes.py; the i-th call returns the i-th of `draws` (a single draw or
+    a list; the last one repeats), fitted to the size asked."""
     m = aesmod()
     if not hasattr(m, "get_random_bytes"):
         raise CannotObserve("bobocep.dist.crypto.aes has no get_random_bytes to script")
     log = []
 
+    if not (draws and isinstance(draws[0], (list, bytes, bytearray))):
+        draws = [draws]
+
     def grb(n):
+        draw = draws[min(len(log), len(draws) - 1)]
         b = bytes(draw) if len(draw) == n else (bytes(draw) + bytes(max(n, 0)))[:max(n, 0)]
         log.append((n, b))
         return b
@@ -256,6 +262,18 @@ def impl_toy(key, n, m, draw, text):
     return head + [1] + list(out) + [SEP] + dec
 
 
+def impl_seq(key, n, m, d1, d2, text):
+    c = construct(key, n, m)
+    rec, res = [], []
+    with scripted_rng([d1, d2]), patched_new(toy_new(rec)):
+        for _ in range(2):
+            try:
+                res += [1] + list(bytes(c.encrypt(text_of(text)))) + [SEP]
+            except ValueError:
+                res += [-1, SEP]
+    return res
+
+
 def impl_toydec(key, n, m, msg):
     c = construct(key, n, m)
     rec = []
@@ -330,6 +348,8 @@ def case_term(case):
         return term(k, case["key"], (case["n"], case["m"]), case["text"], case["out"])
     if k == K_SLICES:
         return term(k, [], (case["n"], case["m"]), case["msg"], [])
+    if k == K_SEQ:
+        return term(k, case["key"], (case["n"], case["m"]), case["draw"] + case["draw2"], case["text"])
     return term(k, case["bytes"], (0, 0), [], [])
 
 
@@ -346,6 +366,8 @@ def run_impl(case):
         return exp
     if k == K_SLICES:
         return impl_slices(case["n"], case["m"], case["msg"])
+    if k == K_SEQ:
+        return impl_seq(case["key"], case["n"], case["m"], case["draw"], case["draw2"], case["text"])
     return impl_utf8(case["bytes"])
 
 
@@ -424,6 +446,11 @@ def build_corr_cases(ctx):
             key = gen_key(rng, k)
             kind = K_TOY if (i + j) % 2 == 0 else K_LAYOUT
             cases.append(dict(kind=kind, key=key, n=n, m=m, draw=draw(n), text=t))
+    # two consecutive calls of one instance: one draw each
+    for i, (k, n, m) in enumerate(grid):
+        if i % (13 if q else 3) == 0:
+            cases.append(dict(kind=K_SEQ, key=gen_key(rng, k), n=n, m=m, draw=draw(n), draw2=draw(n),
+                              text=gen_text(rng, rng.randint(0, 40), kinds[i % 2])))
     # every text length 0..64, ASCII and multi-byte, on a few configurations
     for (k, n, m) in [(16, 16, 16), (32, 12, 8)] + ([] if q else [(24, 8, 4), (16, 32, 15)]):
         key = gen_key(rng, k)
@@ -498,12 +525,12 @@ def build_corr_cases(ctx):
     return cases
 
 
-KIND_NAME = {K_TOY: "toy", K_TOYDEC: "toydec", K_LAYOUT: "layout", K_SLICES: "slices", K_UTF8: "utf8"}
+KIND_NAME = {K_SEQ: "seq", K_TOY: "toy", K_TOYDEC: "toydec", K_LAYOUT: "layout", K_SLICES: "slices", K_UTF8: "utf8"}
 
 
 def case_nontrivial(case):
     k = case["kind"]
-    if k in (K_TOY, K_LAYOUT):
+    if k in (K_TOY, K_LAYOUT, K_SEQ):
         return nontrivial_text(case["n"], case["m"], case["text"])
     if k == K_UTF8:
         return any(b > 127 for b in case["bytes"])
